@@ -3,103 +3,53 @@ package c07
 import (
 	"fmt"
 	"os"
-	"strings"
 	"testing"
-	"time"
 
-	ds "github.com/sealdice/dicescript"
-
-	"verif/harness/rt"
+	"verif/harness/vmx"
 )
 
-func runX(src string, lim int, plim uint64, mode string) string {
-	vm := ds.NewVM()
-	vm.Config.OpCountLimit = ds.IntType(lim)
-	vm.Config.ParseExprLimit = plim
-	vm.Config.EnableDiceWoD = true
-	vm.Config.EnableDiceCoC = true
-	vm.Config.EnableDiceFate = true
-	vm.Config.EnableDiceDoubleCross = true
-	vm.Config.DiceMinMode = mode == "min"
-	vm.Config.DiceMaxMode = mode == "max"
-	ds.VerifMeterReset(50_000_000)
-	var err error
-	t0 := time.Now()
-	pi := rt.Guard(func() { err = vm.Run(src) })
-	el := time.Since(t0)
-	ops, rolls := ds.VerifOpsDone.Load(), ds.VerifRollsDone.Load()
-	ds.VerifMeterReset(0)
-	out := ""
-	if pi != nil {
-		out = "PANIC " + pi.Value + " @" + pi.Sig()
-	} else if err != nil {
-		out = "ERR " + err.Error()
-	} else {
-		s := vm.Ret.ToString()
-		if len(s) > 60 {
-			s = fmt.Sprintf("%s...(len %d)", s[:60], len(s))
-		}
-		out = "OK " + s + " rest=" + fmt.Sprintf("%q", clipS(vm.RestInput, 30))
-	}
-	return fmt.Sprintf("%-70s ops=%d rolls=%d cnt=%d %v", out, ops, rolls, vm.NumOpCount, el.Round(time.Millisecond))
-}
-
-func clipS(s string, n int) string {
-	if len(s) > n {
-		return s[:n] + "…"
-	}
-	return s
-}
-
-func TestExplore(t *testing.T) {
-	if os.Getenv("C07_EXPLORE") == "" {
-		t.Skip()
-	}
-	sum := func(n int) string { return strings.TrimSuffix(strings.Repeat("1+", n), "+") }
-	for _, n := range []int{10, 1000, 4090, 4095, 4096, 4097, 4100, 5000, 8192, 20000} {
-		fmt.Printf("sum %d: %s\n", n, runX(sum(n), 30000, 0, ""))
-	}
-	list := func(n int) string { return "[" + strings.TrimSuffix(strings.Repeat("1,", n), ",") + "].len()" }
-	for _, n := range []int{10, 998, 999, 1000, 1001, 5000, 9000} {
-		fmt.Printf("list %d: %s\n", n, runX(list(n), 30000, 0, ""))
-	}
-	for _, n := range []int{10, 100, 1000, 5000} {
-		fmt.Printf("paren %d: %s\n", n, runX(strings.Repeat("(", n)+"7"+strings.Repeat(")", n), 30000, 0, ""))
-		fmt.Printf("arrnest %d: %s\n", n, runX(strings.Repeat("[", n)+"7"+strings.Repeat("]", n), 30000, 0, ""))
-	}
-	for _, n := range []int{19, 20, 21, 22} {
-		fmt.Printf("ifnest %d: %s\n", n, runX(strings.Repeat("if 1 { ", n)+"x=7"+strings.Repeat(" }", n)+"; x", 30000, 0, ""))
-		fmt.Printf("tmplnest %d: %s\n", n, runX(strings.Repeat("`{", n)+"7"+strings.Repeat("}`", n), 30000, 0, ""))
-	}
-	stm := func(n int) string { return "x=0;" + strings.Repeat("x=x+1;", n) + "x" }
-	for _, n := range []int{10, 1000, 2040, 2047, 2048, 2049, 3000, 10000} {
-		fmt.Printf("stmts %d: %s\n", n, runX(stm(n), 100000, 0, ""))
-	}
-	progs := []string{
-		"s='aaaaaaaaaaaaaaaa'; x=[s]*512; s=toStr(x); x=[s]*512; s=toStr(x); x=[s]*512; s=toStr(x); 1",
-		"s='aaaaaaaaaaaaaaaa'; x=[s]*512; s=repr(x); x=[s]*512; s=repr(x);  1",
-		"x='aaaaaaaa'; i=0; while i<40 { x=x+x; i=i+1 }",
-		"x=[1]; i=0; while i<40 { x=x+x; i=i+1 }",
-		"x=[1]; i=0; while i<40 { x=[x,x]; i=i+1 }; toStr(x)",
-		"x=[1]; i=0; while 1 { x.push(i); i=i+1 }; x.len()",
-		"func g(n){ g(n+1) }; g(0)",
-		"&a = a + 1; a",
-		"&a = b; &b = a; a",
-		"while 1 { }",
-		"1a2m100000000", "3a2m100000", "1a2", "3c6", "20000a2m1000000000", "10c2m10000000000",
-		"100000000d6", "99999999999999999999d6", "b99999999999999999999", "30000d6", "29990d6", "f", "b3", "p30001", "30001b",
-		"[1..512].len()", "[1..513].len()", "([1]*512).len()", "([1]*513).len()", "([1..256]+[1..256]).len()", "([1..256]+[1..257]).len()",
-		"x=[]; x.push(x); toStr(x)", "x={}; x.a=x; toStr(x)",
-		"[1..512].shuffle().len()", "[1..512].kh(500)",
-		"x=[1..512]; y=[x,x,x,x]; z=[y,y,y,y]; toStr(z)",
-	}
-	for _, p := range progs {
-		for _, mode := range []string{"", "min", "max"} {
-			fmt.Printf("%-60s [%s] %s\n", clipS(p, 60), mode, runX(p, 30000, 0, mode))
+// TestFamiliesSmoke: every closed-form family gives its closed-form value at small sizes
+// (guards the check's own tables; not part of the driver's run).
+func TestFamiliesSmoke(t *testing.T) {
+	for _, f := range families {
+		for _, n := range []int{0, 1, 2, 3, 7, 12} {
+			for _, m := range []int{0, 1, 2, 5} {
+				c := Case{Fam: f.name, N: n, M: m, Cfg: vmx.Cfg{OpLimit: 30000, SeedHex: "000102030405060708090a0b0c0d0e0f"}}
+				if f.needs != nil {
+					f.needs(&c.Cfg)
+				}
+				src, want, _ := wantFor(c)
+				o := execute(c.Cfg, src)
+				if o.pi != nil {
+					t.Errorf("%s n=%d m=%d %q: panic %s", f.name, n, m, src, o.pi.Value)
+					continue
+				}
+				if o.err != nil {
+					if os.Getenv("C07_VERBOSE") != "" {
+						fmt.Printf("%s n=%d m=%d %q: error %v\n", f.name, n, m, clip(src, 100), clip(o.err.Error(), 80))
+					}
+					continue
+				}
+				if msg := want(o.vm.Ret); msg != "" || o.vm.RestInput != "" {
+					t.Errorf("%s n=%d m=%d %q: got %s rest %q, want %s", f.name, n, m, clip(src, 200), vmx.Repr(o.vm.Ret), o.vm.RestInput, msg)
+				}
+			}
 		}
 	}
-	for _, pl := range []uint64{1, 10, 100, 500, 5000, 10_000_000} {
-		fmt.Printf("plimit %d sum100: %s\n", pl, runX(sum(100), 30000, pl, ""))
-		fmt.Printf("plimit %d '1': %s\n", pl, runX("1", 30000, pl, ""))
+	for _, f := range advFamilies {
+		for _, n := range []int{0, 1, 5} {
+			if f.avoid != "" && n > 1 {
+				continue
+			}
+			src := f.build(n, 3, 2)
+			cfg := vmx.Cfg{OpLimit: 1000, CoC: true, WoD: true, Fate: true, DC: true, SeedHex: "000102030405060708090a0b0c0d0e0f"}
+			o := execute(cfg, src)
+			if os.Getenv("C07_VERBOSE") != "" {
+				fmt.Printf("adv %-20s %-70q %s W=%d cnt=%d\n", f.name, clip(src, 70), clip(o.String(), 60), o.W(), o.cnt)
+			}
+			if o.pi != nil {
+				t.Errorf("adv %s %q: panic %s", f.name, src, o.pi.Value)
+			}
+		}
 	}
 }
